@@ -152,6 +152,106 @@ def gen_value(rng):
     return v or "v"
 
 
+TOKEN_CHARS = set("abcdefghijklmnopqrstuvwxyzABCDEFGHIJKLMNOPQRSTUVWXYZ0123456789!#$%&'*+-.^_`|~")
+
+
+def canonical_key(name):
+    """textproto.CanonicalMIMEHeaderKey (as `canonicalKey` of Model/ProxyFwd.lean)"""
+    if not name or any(ch not in TOKEN_CHARS for ch in name):
+        return name
+    out, up = [], True
+    for ch in name:
+        out.append(ch.upper() if up else ch.lower())
+        up = ch == "-"
+    return "".join(out)
+
+
+BLANKS = [" ", "  ", "\t", " \t "]
+GROUP_ITEMS = ["admin", "dev", "ops", "a", "b-1", "x y"]
+
+
+def odd_value(rng, v):
+    """now and then: the empty value, a value of blanks only, a value with blanks around it"""
+    r = rng.random()
+    if r < 0.10:
+        return ""
+    if r < 0.15:
+        return rng.choice(BLANKS)
+    if r < 0.20:
+        return rng.choice(["", " ", "\t"]) + v + rng.choice([" ", "  ", "\t", " \t"])
+    return v
+
+
+class Templates:
+    """Template sources for the REAL header / cookie finalizers, written so that it is known what they render to.
+
+    The subject (id, attributes) the scripted authenticator creates is built along the way.  `render(v)` returns a
+    template that renders to `v`; `any_render(...)` may choose the value itself (a joined list attribute, what the
+    client sent under some header name, the empty string for something that is absent)."""
+
+    def __init__(self, rng, client_headers):
+        self.rng = rng
+        self.attrs = {}
+        self.sid = None
+        self.client = client_headers
+
+    def _key(self, v):
+        k = "a%d" % len(self.attrs)
+        self.attrs[k] = v
+        return k
+
+    def render(self, v):
+        rng = self.rng
+        forms = ["attr", "attr", "with", "trim"]
+        if v and "{{" not in v:
+            forms += ["const", "const"]
+        if v == "":
+            forms += ["missing-with", "missing-with", "default", "empty-list", "not-sent", "string"]
+        if self.sid is None:
+            forms.append("id")
+        f = rng.choice(forms)
+        if f == "const":
+            return v
+        if f == "attr":
+            return "{{ .Subject.Attributes.%s }}" % self._key(v)
+        if f == "with":
+            return "{{ with .Subject.Attributes.%s }}{{ . }}{{ end }}" % self._key(v)
+        if f == "trim":
+            return "  {{- .Subject.Attributes.%s -}}\t " % self._key(v)
+        if f == "missing-with":
+            return "{{ with .Subject.Attributes.%s }}{{ . }}{{ end }}" % rng.choice(["role", "missing", "email"])
+        if f == "default":
+            return '{{ .Subject.Attributes.%s | default "" }}' % rng.choice(["role", "missing"])
+        if f == "empty-list":
+            return '{{ join "," .Subject.Attributes.%s }}' % self._key([])
+        if f == "not-sent":
+            return '{{ .Request.Header "%s" }}' % rand_case(rng, "X-Not-Sent")
+        if f == "string":
+            return '{{ "" }}'
+        self.sid = v
+        return "{{ .Subject.ID }}"
+
+    def any_render(self, v):
+        """-> (template, rendered value)"""
+        rng = self.rng
+        r = rng.random()
+        if r < 0.10:
+            items = rng.sample(GROUP_ITEMS, rng.choice([0, 1, 2, 3]))
+            if rng.random() < 0.5:
+                return '{{ join "," .Subject.Attributes.%s }}' % self._key(items), ",".join(items)
+            return ("{{ range .Subject.Attributes.%s }}{{ . }} {{ end }}" % self._key(items),
+                    "".join(i + " " for i in items))
+        if r < 0.22 and self.client:
+            # what the client sent under a name (all lines joined), in any casing of the name
+            n = rng.choice(self.client)[0]
+            vals = [h[1] for h in self.client if canonical_key(h[0]) == canonical_key(n)]
+            return '{{ .Request.Header "%s" }}' % rand_case(rng, n), ",".join(vals)
+        return self.render(v), v
+
+    def subject(self):
+        return {"id": self.sid if self.sid is not None else "anonymous", "attrs": self.attrs}
+
+
 def strip_candidates(rng, rawpath):
     """prefixes that do / do not match, some cutting through an escape"""
     c = ["/api", "/api/v1", "/"]
@@ -254,6 +354,11 @@ def gen_case(rng, flavour=None):
     # pipeline
     scripted = rng.random() < 0.5
     pheaders = []
+    tmpl = []
+    fin = []
+    # request headers a template may read (forwarding headers depend on the trust in the peer: left alone)
+    readable = [h for h in headers if canonical_key(h[0]) not in FWD_NAMES and '"' not in h[0]]
+    T = Templates(rng, readable)
     client_names = [h[0] for h in headers if h[0].lower() not in ("range", "te", "upgrade", "proxy-connection",
                                                                   "proxy-authenticate")]
     for _ in range(rng.choice([0, 1, 1, 2, 2, 3, 4])):
@@ -269,18 +374,31 @@ def gen_case(rng, flavour=None):
         else:
             n = rand_case(rng, rng.choice(PIPE_NAMES))
         v = gen_value(rng)
+        fixed = True
         if n.lower() == "host":
-            v = rng.choice(["internal.svc", "internal.svc:8080", "public.example.com", "DECOY"])
-        if n.lower() == "content-length":
+            # a Host of blanks is outside the modelled space (net/http writes an empty Host line)
+            v = rng.choice(["internal.svc", "internal.svc:8080", "public.example.com", "DECOY", ""])
+        elif n.lower() == "content-length":
             v = rng.choice(["0", "5", "12345"])
-        if n.lower() == "cookie":
-            v = rng.choice(["pipe=1", "session=good; x=y"])
-        if scripted and rng.random() < 0.08:
-            v = ""
+        elif n.lower() == "cookie":
+            v = odd_value(rng, rng.choice(["pipe=1", "session=good; x=y"]))
+        else:
+            v = odd_value(rng, v)
+            fixed = False
+        if not scripted:
+            # a real header finalizer renders the value from a template over the subject / the request
+            if fixed or "DECOY" in v:
+                t = T.render(v)
+            else:
+                t, v = T.any_render(v)
+            tmpl.append(t)
+            # several headers of one finalizer (a Go map): only names that differ as header names
+            if fin and rng.random() < 0.3 and all(canonical_key(pheaders[j][0]) != canonical_key(n)
+                                                  for j in range(len(fin)) if fin[j] == fin[-1]):
+                fin.append(fin[-1])
+            else:
+                fin.append(fin[-1] + 1 if fin else 0)
         pheaders.append([n, v])
-    if not scripted:
-        # one real header finalizer per header; a JSON object per finalizer, so any casing is fine
-        pass
     if rng.random() < 0.2:
         # the client declares headers hop-by-hop: its own ones, some the pipeline produces, standard tokens
         pool = [h[0] for h in headers] + [h[0] for h in pheaders] + ["keep-alive", "close", "X-Not-Sent", "upgrade", "TE"]
@@ -290,12 +408,24 @@ def gen_case(rng, flavour=None):
         if rng.random() < 0.3:
             headers.append([rand_case(rng, "connection"), rand_case(rng, rng.choice(pool))])
     cookies = []
+    ctmpl = []
     for _ in range(rng.choice([0, 0, 0, 1, 1, 2])):
         n = rng.choice(["session", "sid", "jwt", "theme"])
         if any(c[0] == n for c in cookies) and not scripted:
             continue
-        cookies.append([n, rng.choice(["good", "abc-123", "eyJhbGciOi.x.y"])])
+        # empty values, values net/http puts between quotes (blank, comma)
+        v = rng.choice(["good", "abc-123", "eyJhbGciOi.x.y", "good", "abc-123", "", "", " ", "a b", "x,y"])
+        if not scripted:
+            if rng.random() < 0.15:
+                items = rng.sample(GROUP_ITEMS, rng.choice([0, 1, 2]))
+                ctmpl.append('{{ join "," .Subject.Attributes.%s }}' % T._key(items))
+                v = ",".join(items)
+            else:
+                ctmpl.append(T.render(v))
+        cookies.append([n, v])
     pipe = {"headers": pheaders, "cookies": cookies, "read_body": rng.random() < 0.3, "scripted": scripted}
+    if not scripted:
+        pipe.update({"tmpl": tmpl, "ctmpl": ctmpl, "fin": fin, "subject": T.subject()})
 
     method = rng.choice(METHODS)
     body = ""
